@@ -186,6 +186,7 @@ def register(reg):
                  requires=['len(self.parser_state.state_stack) >= 1', 'KEY(%s, %s)' % (T, TOPS),
                            'self.parser_state.parse_conf.parse_table.states is self.parser_state.parse_conf.states'],
                  ensures=['result.table is %s' % T, 'result.state == %s' % TOPS])
+    reg.specfun('ISTERM', [('name', 'str')], 'bool', doc='the symbol of that name is a terminal of the grammar')
     reg.contract('lark.parsers.lalr_interactive_parser:InteractiveParser.accepts', serves=['C13', 'C08'], kind='method',
                  params={'self': 'InteractiveParser'}, returns='set[str]',
                  types={'@set105': 'set[str]'},
@@ -198,8 +199,10 @@ def register(reg):
                  ensures=['fresh(result)',
                           # every member is a terminal of the current state (belongs to choices(), hence to `expected`)
                           'all(implies(k in result, HAS(%s, %s, k) and k.isupper()) for k in STR)' % (T, TOPS),
-                          # exactness: a terminal is a member iff feeding a token of that type succeeds
-                          "all(implies(k != '$END' and HAS(%s, %s, k) and k.isupper(), iff(k in result, %s)) for k in STR)" % (T, TOPS, FEEDOK('k')),
+                          # exactness, as the property states it: a TERMINAL is a member iff feeding a token of that type succeeds.  The code decides
+                          # "is a terminal" by k.isupper(); a terminal whose name has no cased character (anonymous terminal for "中") is missed: F7
+                          ("all(implies(k != '$END' and HAS(%s, %s, k) and ISTERM(k), iff(k in result, %s)) for k in STR)" % (T, TOPS, FEEDOK('k')),
+                           'F7', 'all(ISTERM(k) == k.isupper() for k in STR)'),
                           'seq(self.parser_state.state_stack) == old(seq(self.parser_state.state_stack))'],
                  loops={0: dict(inv=[
                      'fresh(accepts)', 'fresh(conf_no_callbacks)', 'len(conf_no_callbacks.callbacks) == 0',
